@@ -2,6 +2,7 @@ import Goat.Model.Conc
 import Goat.Gen.AccessTable
 import GoatProofs.Lemmas.C20Inv
 import GoatProofs.Lemmas.C20Table
+import GoatProofs.Lemmas.C20Flight
 /-!
 # C20 — the library is safe to use from many goroutines from the first call on
 
@@ -263,5 +264,78 @@ theorem goat_race_free (P : Prog) (hP : GenProg Gen.table P) (sched : List Tid) 
     RaceFree (exec P sched).trace ∧
     ∀ e ∈ (exec P sched).trace, ∀ t c v, TopRead e t c v → v = finalOf Gen.table c :=
   discipline_race_free Gen.table table_ok P hP sched
+
+end GoatProofs.C20
+
+/-! ## The single-flight group (`memoize.Group.Do`): a live waiter gets the flight's result
+
+Result deviations that are NOT data races: `oidc.Client` shares one in-flight fetch between all
+callers of the same URL.  The model (`Conc.Flight`) and the theorems below fix what every caller
+must observe as a function of ITS OWN context and the provider's answer. -/
+namespace GoatProofs.C20
+open Conc Conc.Flight
+
+/-- **A waiter with a live context receives the flight's result whatever the other waiters do.**
+    `s` any well-formed state in which `c` waits for the flight; `pre` any events that contain
+    neither the provider's answer nor the cancellation of `c`'s own context (other callers may
+    join, the starter and any other waiter may cancel, in any order); then the answer is delivered
+    to `c` — the value on success, the provider's error otherwise — it never changes afterwards
+    (`post` arbitrary), and no second provider request was started while the flight was shared. -/
+theorem live_waiter_gets_answer (s : St) (hwf : Wf s) (c : Caller) (hw : Waiting s c)
+    (pre post : List Ev) (hpre : ∀ e ∈ pre, e.isAnswer = false) (hlive : Ev.cancel c ∉ pre)
+    (ok : Bool) (v : Nat) :
+    (Flight.run s (pre ++ Ev.answer ok v :: post)).out c = some (if ok then .value v else .provErr) ∧
+    (Flight.run s pre).requests = s.requests := by
+  obtain ⟨ws, hws, hmem⟩ := hw
+  have hnone : s.out c = none := ((hwf ws hws).2.2 c hmem).1
+  have h := waiting_run pre s c ⟨ws, hws, hmem⟩ hnone hpre hlive
+  refine ⟨?_, h.2.2⟩
+  rw [run_append]
+  show (Flight.run (Flight.step (Flight.run s pre) (Ev.answer ok v)) post).out c = _
+  exact run_out_stable post _ c _ (answer_delivers _ c h.1 h.2.1 ok v)
+
+/-- the same from the initial state: after ANY history `hist`, if `c` is waiting … -/
+theorem live_waiter_gets_answer_init (hist : List Ev) (c : Caller)
+    (hw : Waiting (Flight.run Flight.init hist) c)
+    (pre post : List Ev) (hpre : ∀ e ∈ pre, e.isAnswer = false) (hlive : Ev.cancel c ∉ pre)
+    (ok : Bool) (v : Nat) :
+    (Flight.run Flight.init (hist ++ pre ++ Ev.answer ok v :: post)).out c =
+      some (if ok then .value v else .provErr) := by
+  rw [List.append_assoc, run_append]
+  exact (live_waiter_gets_answer _ (wf_run hist _ wf_init) c hw pre post hpre hlive ok v).1
+
+/-- a waiter whose own context ends gets its `ctx.Err()`, for good -/
+theorem canceller_gets_ctxErr (hist : List Ev) (c : Caller)
+    (hw : Waiting (Flight.run Flight.init hist) c) (post : List Ev) :
+    (Flight.run Flight.init (hist ++ Ev.cancel c :: post)).out c = some .ctxErr := by
+  rw [run_append]
+  show (Flight.run (Flight.step (Flight.run Flight.init hist) (Ev.cancel c)) post).out c = _
+  exact run_out_stable post _ c _ (cancel_delivers _ c (wf_run hist _ wf_init) hw)
+
+/-- when all waiters have left, the flight is cancelled (exactly once) and no request was added -/
+theorem all_waiters_leave_cancels_flight (hist : List Ev) (ws : List Caller)
+    (hws : (Flight.run Flight.init hist).flight = some ws) :
+    let s := Flight.run Flight.init (hist ++ ws.map Ev.cancel)
+    s.flight = none ∧ s.cancelled = (Flight.run Flight.init hist).cancelled + 1 ∧
+      s.requests = (Flight.run Flight.init hist).requests := by
+  simp only [run_append]
+  exact cancel_all ws _ (wf_run hist _ wf_init) hws
+
+/-- **Tie for the single-flight facts.**  No fetch function passed to `memoize.Group.Do` uses a
+    context captured from outside, ignores its own context parameter, or is opaque: the fetch
+    runs under the flight's detached context, which is what `Conc.Flight` models. -/
+theorem flight_ctx_ok : Gen.flightCtxFacts = [] := by decide
+
+/-- the seeded change: starter A, joiner B, A cancels before the answer — B still gets the value,
+    A gets its context error, one request, no cancelled flight (non-vacuity, by evaluation) -/
+example :
+    let s := Flight.run Flight.init [.call 0, .call 1, .cancel 0, .answer true 7]
+    (s.out 0, s.out 1, s.requests, s.cancelled) = (some .ctxErr, some (.value 7), 1, 0) := by decide
+
+/-- … whereas when everybody leaves, the flight is cancelled and a later caller starts a new one -/
+example :
+    let s := Flight.run Flight.init [.call 0, .call 1, .cancel 0, .cancel 1, .answer true 7, .call 2, .answer true 8]
+    (s.out 0, s.out 1, s.out 2, s.requests, s.cancelled) =
+      (some .ctxErr, some .ctxErr, some (.value 8), 2, 1) := by decide
 
 end GoatProofs.C20
